@@ -1,6 +1,7 @@
 package main
 
 import (
+	"os"
 	"go/constant"
 	"fmt"
 	"go/token"
@@ -446,13 +447,27 @@ func fanOutLoop(sends []Effect) bool {
 // ruleFanOut: R15.3 and R15.4 on utils.DynamicFanOut.
 func ruleFanOut(c *Ctx) {
 	runs := c.P.Instances(pkgUtils, "DynamicFanOut", "run")
+	if len(runs) == 0 {
+		// the delivery loop by its role: the function the constructor starts with `go` (a method turned into a function)
+		for _, ctor := range c.P.Instances(pkgUtils, "", "NewDynamicFanOut") {
+			for _, b := range ctor.Blocks {
+				for _, in := range b.Instrs {
+					if g, ok := in.(*ssa.Go); ok {
+						if f := g.Call.StaticCallee(); f != nil && c.P.OwnedFunc(f) && len(f.Blocks) > 0 {
+							runs = append(runs, f)
+						}
+					}
+				}
+			}
+		}
+	}
 	spawns := c.P.Instances(pkgUtils, "DynamicFanOut", "SpawnOutput")
 	despawns := c.P.Instances(pkgUtils, "DynamicFanOut", "DespawnOutput")
 	if !c.Require(len(runs) >= 1 && len(spawns) >= 1 && len(despawns) >= 1, "R15.3", "anchor:utils.DynamicFanOut", "instantiated methods run/SpawnOutput/DespawnOutput not found") {
 		return
 	}
 	run, spawn, despawn := runs[0], spawns[0], despawns[0]
-	named, _ := deref(run.Signature.Recv().Type()).(*types.Named)
+	named, _ := deref(spawn.Signature.Recv().Type()).(*types.Named) // (run may be a plain function taking the fan-out)
 	if !c.Require(named != nil, "R15.3", "anchor:DynamicFanOut type", "receiver type not found") {
 		return
 	}
@@ -480,9 +495,11 @@ func ruleFanOut(c *Ctx) {
 		c.Check(bad == "", "R15.3", "lock-carrying-value-not-copied-after-its-goroutine-started", "-", "no value that carries a mutex is copied after a goroutine was started on it", bad)
 	}
 	la := newLockAnalysis(c.P, named)
-	for _, f := range []*ssa.Function{run, spawn, despawn} {
+	// keyed by role, not by name: the delivery loop may be a method, a plain or a generic function
+	roles := []string{"run", "SpawnOutput", "DespawnOutput"}
+	for i, f := range []*ssa.Function{run, spawn, despawn} {
 		c.Fn(shortFn(f))
-		la.Walk(baseName(f), f, lockset{}, nil)
+		la.Walk(roles[i], f, lockset{}, nil)
 	}
 	lockKey := "field:mutex"
 	byFn := map[string][2]int{}
@@ -498,7 +515,7 @@ func ruleFanOut(c *Ctx) {
 		}
 		byFn[a.Root] = v
 	}
-	for _, f := range []string{"run", "SpawnOutput", "DespawnOutput"} {
+	for _, f := range roles {
 		v := byFn[f]
 		key := "utils.DynamicFanOut." + f + "/outputs-under-mutex"
 		if v[0]+v[1] == 0 {
@@ -1149,18 +1166,42 @@ func drainedBeforeDespawn(c *Ctx, despawn, spawn *ssa.Function) (string, bool) {
 		for _, b := range fn.Blocks {
 			for _, in := range b.Instrs {
 				call, ok := in.(*ssa.Call)
-				if !ok || !isInst(call.Call.StaticCallee(), despawn) || len(call.Call.Args) < 2 {
+				if !ok {
+					continue
+				}
+				// the method called statically, or through a narrow interface in front of the fan-out (same method name)
+				argsOf := func(cl *ssa.Call, want *ssa.Function) ([]ssa.Value, bool) {
+					if isInst(cl.Call.StaticCallee(), want) {
+						if len(cl.Call.Args) == 0 {
+							return nil, false
+						}
+						return cl.Call.Args[1:], true
+					}
+					wantName := want.Name()
+					if o := want.Origin(); o != nil {
+						wantName = o.Name() // (an instance's own name carries its type arguments)
+					}
+					if cl.Call.IsInvoke() && cl.Call.Method != nil && cl.Call.Method.Name() == wantName {
+						return cl.Call.Args, true
+					}
+					return nil, false
+				}
+				dargs, isD := argsOf(call, despawn)
+				if !isD || len(dargs) < 1 {
 					continue
 				}
 				n++
 				// id = extract #0 of a SpawnOutput call in the same function
-				ex, ok := call.Call.Args[1].(*ssa.Extract)
+				ex, ok := dargs[0].(*ssa.Extract)
 				if !ok {
-					return "", false
+					return r154fail(1)
 				}
 				sp, ok := ex.Tuple.(*ssa.Call)
-				if !ok || !isInst(sp.Call.StaticCallee(), spawn) || ex.Index != 0 {
-					return "", false
+				if !ok || ex.Index != 0 {
+					return r154fail(2)
+				}
+				if _, isS := argsOf(sp, spawn); !isS {
+					return r154fail(3)
 				}
 				var ch ssa.Value
 				for _, r := range *sp.Referrers() {
@@ -1169,7 +1210,7 @@ func drainedBeforeDespawn(c *Ctx, despawn, spawn *ssa.Function) (string, bool) {
 					}
 				}
 				if ch == nil {
-					return "", false
+					return r154fail(4)
 				}
 				drained := false
 				for _, gb := range fn.Blocks {
@@ -1238,13 +1279,13 @@ func drainedBeforeDespawn(c *Ctx, despawn, spawn *ssa.Function) (string, bool) {
 					}
 				}
 				if !drained {
-					return "", false
+					return r154fail(5)
 				}
 			}
 		}
 	}
 	if n == 0 {
-		return "", false
+		return r154fail(6)
 	}
 	return fmt.Sprintf("every DespawnOutput call site (%d) first starts a goroutine that keeps receiving from that output until it is closed: a consumer that stopped reading cannot keep the delivery loop inside the critical section", n), true
 }
@@ -1546,4 +1587,11 @@ func lockCopies(p *Program, sel func(*ssa.Function) bool) []lockCopySite {
 		}
 	}
 	return out
+}
+
+func r154fail(n int) (string, bool) {
+	if os.Getenv("HIDI_DEBUG") == "r154" {
+		fmt.Fprintln(os.Stderr, "r154 fail at", n)
+	}
+	return "", false
 }
